@@ -676,7 +676,7 @@ def main(tier, t0):
     for doms, depth, focus, seeds in (
             ((3, 2), 4 if q else 5, False, ('fresh', 'rev', 'two')),
             ((2, 2, 3), 3 if q else 4, False, ('fresh', 'rev', 'two')),
-            ((3, 2), 5 if q else 7, True, ('two', 'three'))):
+            ((3, 2), 5 if q else 6, True, ('two', 'three'))):
         mach = MddMachine(doms, focus=focus, seeds=seeds)
         mach.name = 'mdd%s/%s' % ('-cache' if focus else '', 'x'.join(map(str, doms)))
         r = run.Report()
